@@ -1,0 +1,16 @@
+//go:build verif
+
+// Contracts for the verifier in /verif (comment-only; compiled only with -tags verif, adds no code).
+package lang
+
+// sort.Interface methods: package sort calls them with indices inside [0, Len()).
+//@ contract (lang.Candidates).Less (ca, i, j)
+//@   requires 0 <= i && i < len(ca.List) && 0 <= j && j < len(ca.List)
+//@ contract (lang.Candidates).Swap (ca, i, j)
+//@   requires 0 <= i && i < len(ca.List) && 0 <= j && j < len(ca.List)
+//@   modifies ca.List[*]
+//@ contract (lang.Address).FirstSteps (a, steps)
+//@   requires steps <= uint(len(a))
+//@ contract (lang.DiagnosticsMap).Extend (dm, diagMap)
+//@   requires dm != nil
+//@   modifies dm[*]
